@@ -134,6 +134,12 @@ func (r *replayer) run(pkg, path string) (string, string) {
 			return strings.TrimSpace(l[i+len("VP-RESULT: "):]), string(out)
 		}
 	}
+	// a crash on another goroutine ends the process without a result line
+	for _, l := range strings.Split(string(out), "\n") {
+		if strings.HasPrefix(l, "panic: ") || strings.HasPrefix(l, "fatal error: ") {
+			return "panic " + strings.TrimPrefix(l, "panic: "), string(out)
+		}
+	}
 	return "", string(out)
 }
 
